@@ -57,6 +57,7 @@ type World struct {
 	TokenLog    []*Token
 
 	Cause error
+	CauseBare bool // components return Cause itself (a bare context error of their own), not a wrapper
 }
 
 type Report struct {
@@ -83,6 +84,13 @@ type Token struct {
 
 var ErrInjected = errors.New("injected failure")
 
+func (w *World) fail(what string) error {
+	if w.CauseBare {
+		return w.Cause
+	}
+	return fmt.Errorf(what+": %w", w.Cause)
+}
+
 // ---- provider
 
 type Prov struct {
@@ -98,7 +106,7 @@ func (p *Prov) Run(ctx context.Context, _ core.ProviderDeps) error {
 	defer func() { w.ProvRunEnd = 2 }()
 	if w.ProvFailAt == 0 {
 		close(p.sink)
-		return fmt.Errorf("provider: %w", w.Cause)
+		return w.fail("provider")
 	}
 	for i := 0; w.Items < 0 || i < w.Items; i++ {
 		select {
@@ -109,12 +117,12 @@ func (p *Prov) Run(ctx context.Context, _ core.ProviderDeps) error {
 		}
 		if w.ProvFailAt == i+1 {
 			close(p.sink)
-			return fmt.Errorf("provider: %w", w.Cause)
+			return w.fail("provider")
 		}
 	}
 	close(p.sink)
 	if w.ProvFailLate {
-		return fmt.Errorf("provider (late): %w", w.Cause)
+		return w.fail("provider (late)")
 	}
 	return nil
 }
@@ -148,11 +156,11 @@ func (a *Agg) Run(ctx context.Context, _ core.AggregatorDeps) error {
 	w.AggRunEnd = 1
 	defer func() { w.AggRunEnd = 2 }()
 	if w.AggFailAt == "start" {
-		return fmt.Errorf("aggregator: %w", w.Cause)
+		return w.fail("aggregator")
 	}
 	<-ctx.Done()
 	if w.AggFailAt == "end" {
-		return fmt.Errorf("aggregator (3 samples were dropped): %w", w.Cause)
+		return w.fail("aggregator (3 samples were dropped)")
 	}
 	return nil
 }
